@@ -53,7 +53,24 @@ const (
 	OBadTrans                 // (wrong-typed response, transient error)
 	OBadPerm                  // (wrong-typed response, permanent error)
 	nOutcomes
+	// Two more FLAVOURS of OOverrun (harness only; the model's outcome is OOverrun for all three). The classic one
+	// returns only after the engine has recorded the attempt. These block until ctx.Done(), then return PROMPTLY
+	// (promptLag later) a good response without error / a permanent error: an engine that waits for such a late
+	// answer records it instead of the retryable timeout failure.
+	OOverrunPromptOk   Outcome = 10
+	OOverrunPromptPerm Outcome = 11
 )
+
+// promptLag: well inside any grace period an engine might grant, well outside scheduling noise on an idle machine.
+const promptLag = 8 * time.Millisecond
+
+// coq maps a harness outcome to the model's outcome.
+func (o Outcome) coq() Outcome {
+	if o == OOverrunPromptOk || o == OOverrunPromptPerm {
+		return OOverrun
+	}
+	return o
+}
 
 var outcomeName = [...]string{"OOk", "OErr", "OPerm", "OWrongType", "OOverrun", "(ORet PNil PNoErr)", "(ORet PGood PTrans)",
 	"(ORet PGood PPerm)", "(ORet PBad PTrans)", "(ORet PBad PPerm)"}
@@ -63,6 +80,7 @@ var outcomeResp = [...]int{1, 0, 0, 2, 0, 0, 1, 1, 2, 2}
 var outcomeErr = [...]int{0, 1, 2, 0, 1, 0, 1, 2, 1, 2}
 
 func isFinal(o Outcome) bool {
+	o = o.coq()
 	if o == OOverrun {
 		return false
 	}
@@ -70,6 +88,8 @@ func isFinal(o Outcome) bool {
 }
 
 func isOk(o Outcome) bool { return o == OOk || o == ONilOk }
+
+func outcomeTerm(o Outcome) string { return outcomeName[o.coq()] }
 
 type ActSpec struct {
 	Path      string    `json:"path"`
@@ -147,7 +167,7 @@ func (p *PlanSpec) setPaths(r *core.Rand) {
 		a.Path, a.Check = path, check
 		a.TimeoutMs = 30000
 		for k := 0; k <= a.Retries; k++ {
-			if a.planned(k) == OOverrun {
+			if a.planned(k).coq() == OOverrun {
 				a.TimeoutMs = r.Range(15, 25)
 			}
 		}
@@ -196,7 +216,11 @@ func exhaustivePlans(root *core.Rand, k int, both bool) []*PlanSpec {
 			x := c / 5
 			a := &ActSpec{Retries: c % 5, Combo: c, Dflt: Outcome((c*7 + 3) % int(nOutcomes))}
 			for i := 0; i < k; i++ {
-				a.Script = append(a.Script, Outcome(x%int(nOutcomes)))
+				o := Outcome(x % int(nOutcomes))
+				if o == OOverrun { // flavour of the overrun, spread deterministically
+					o = []Outcome{OOverrun, OOverrunPromptOk, OOverrunPromptPerm}[(c/5*31+i*7)%3]
+				}
+				a.Script = append(a.Script, o)
 				x /= int(nOutcomes)
 			}
 			return a
@@ -309,7 +333,7 @@ func exhaustivePlans(root *core.Rand, k int, both bool) []*PlanSpec {
 	return plans
 }
 
-var randWeights = []int{25, 15, 7, 6, 15, 6, 10, 5, 6, 5}
+var randWeights = []int{25, 15, 7, 6, 7, 6, 10, 5, 6, 5, 4, 4}
 
 func randomAct(r *core.Rand) *ActSpec {
 	a := &ActSpec{Retries: r.Intn(5), Combo: -1, Dflt: Outcome(r.Weighted(randWeights))}
@@ -325,7 +349,7 @@ func randomAct(r *core.Rand) *ActSpec {
 		}
 		for i := 0; i < k; i++ {
 			if isFinal(a.Script[i]) {
-				a.Script[i] = []Outcome{OErr, OOverrun, OGoodTrans}[r.Intn(3)]
+				a.Script[i] = []Outcome{OErr, OOverrun, OGoodTrans, OOverrunPromptOk, OOverrunPromptPerm}[r.Intn(5)]
 			}
 		}
 		a.Script[k] = []Outcome{OOk, OOk, ONilOk}[r.Intn(3)]
@@ -392,6 +416,7 @@ type RunObs struct {
 	Events []string  `json:"events"`
 	Last   ActImg    `json:"last"` // the action as handed to the last UpdateAction of this run
 	Trunc  bool      `json:"trunc,omitempty"`
+	Prompt []bool    `json:"prompt,omitempty"` // Prompt[k]: invocation k overran and answered promptLag after the cancellation
 	Stuck  bool      `json:"stuck,omitempty"` // plan hung and this run saw no event during the last second before the snapshot
 	lastAt time.Time
 	// timing, for telling machine-load disturbances from violations (not compared)
@@ -399,6 +424,7 @@ type RunObs struct {
 	writeAt  []time.Time // writeAt[i]: when the first write showing i+1 attempts returned
 	deadline []time.Time // deadline[k]: ctx.Deadline() of invocation k (zero if none)
 	ended    []bool      // ended[k]: invocation k logged its End
+
 }
 
 type ActObs struct {
@@ -583,11 +609,13 @@ func behave(ctx context.Context, p *hplug.Plugin, req any) (any, *plugins.Error)
 	k := run.Calls
 	run.Calls++
 	run.Ctx = append(run.Ctx, false)
-	planned := rec.spec.planned(k)
+	flavour := rec.spec.planned(k)
+	planned := flavour.coq()
 	run.Eff = append(run.Eff, planned)
 	dl, _ := ctx.Deadline()
 	run.deadline = append(run.deadline, dl)
 	run.ended = append(run.ended, false)
+	run.Prompt = append(run.Prompt, false)
 	if ctx.Err() != nil {
 		pr.disturbed = append(pr.disturbed, fmt.Sprintf("late_start: %s call %d entered after its deadline", rq.Path, k))
 	}
@@ -606,7 +634,10 @@ func behave(ctx context.Context, p *hplug.Plugin, req any) (any, *plugins.Error)
 		}
 	}
 	cancelled := ctx.Err() != nil // decided once
-	if cancelled {
+	prompt := cancelled && flavour != planned
+	if prompt {
+		time.Sleep(promptLag)
+	} else if cancelled {
 		eff = OOverrun
 		for t0 := time.Now(); time.Since(t0) < engineWriteCap; {
 			mu.Lock()
@@ -630,6 +661,7 @@ func behave(ctx context.Context, p *hplug.Plugin, req any) (any, *plugins.Error)
 	run.Ctx[k] = cancelled
 	run.Eff[k] = eff
 	run.ended[k] = true
+	run.Prompt[k] = prompt
 	run.add(fmt.Sprintf("(AEnd %s)", outcomeName[eff]))
 	rec.inflight--
 	pr.inflight--
@@ -638,6 +670,12 @@ func behave(ctx context.Context, p *hplug.Plugin, req any) (any, *plugins.Error)
 	code := plugins.ErrCode(100 + k)
 	if k >= 90 {
 		code = 189
+	}
+	if prompt {
+		if flavour == OOverrunPromptOk {
+			return hplug.Resp{Path: rq.Path, Value: int64(k)}, nil
+		}
+		return nil, &plugins.Error{Code: code, Message: "late permanent error", Permanent: true}
 	}
 	if eff == OOverrun {
 		msg := "returned after the deadline"
@@ -853,12 +891,24 @@ func runBatch(specs []*PlanSpec, seed uint64) []*PlanObs {
 							ob.Path, k, outcomeName[r.Eff[k]], r.writeAt[k].Sub(r.deadline[k])))
 					}
 				}
+				for k := 0; k < r.Calls && k < len(r.Last.Atts) && k < len(r.writeAt); k++ {
+					// late_notice: the plugin overran, saw its context cancelled and answered promptLag later, and the
+					// engine recorded that ANSWER: possible without a defect only if the engine noticed the deadline
+					// at least promptLag late (then the answer had already arrived). Machine load; re-run - but if it
+					// persists in every re-run it is compared as it is (an engine that waits for late answers).
+					if r.Prompt[k] && r.Last.Atts[k].Err != "(EEngine false)" && !r.deadline[k].IsZero() &&
+						r.writeAt[k].Sub(r.deadline[k]) >= promptLag {
+						pr.disturbed = append(pr.disturbed, fmt.Sprintf("late_notice: %s call %d overran, answered %v after the cancellation, and the engine recorded the answer %v after the deadline",
+							ob.Path, k, promptLag, r.writeAt[k].Sub(r.deadline[k])))
+					}
+				}
 				if len(r.Last.Atts) > r.Calls {
 					// an attempt without an invocation: the worker pool did not get to start the plugin before the
 					// attempt's deadline (Pool.Submit gives up when its context is done). Machine load; re-run.
 					pr.disturbed = append(pr.disturbed, fmt.Sprintf("not-entered: %s recorded %d attempts for %d invocations", ob.Path, len(r.Last.Atts), r.Calls))
 				}
 				rc.Ctx = append([]bool{}, r.Ctx...)
+				rc.Prompt = append([]bool{}, r.Prompt...)
 				rc.Eff = append([]Outcome{}, r.Eff...)
 				rc.Events = append([]string{}, r.Events...)
 				if rc.Last.Atts == nil {
@@ -958,7 +1008,7 @@ func attsTerm(as []AttObs) string {
 func outcomesTerm(os []Outcome) string {
 	xs := make([]string, len(os))
 	for i, o := range os {
-		xs[i] = outcomeName[o]
+		xs[i] = outcomeTerm(o)
 	}
 	return core.List(xs)
 }
@@ -986,7 +1036,7 @@ func acaseTerm(a *ActSpec, o *ActObs, partial bool) string {
 		runs[i] = core.App("Build_run_obs", outcomesTerm(effScript(a, r)), core.Nat(r.Calls), boolsTerm(r.Ctx),
 			attsTerm(r.Last.Atts), statusTerm(r.Last.Status), core.List(r.Events), core.B(r.Stuck))
 	}
-	return core.App("Build_acase", core.Nat(a.Retries), outcomesTerm(a.Script), outcomeName[a.Dflt], core.B(partial),
+	return core.App("Build_acase", core.Nat(a.Retries), outcomesTerm(a.Script), outcomeTerm(a.Dflt), core.B(partial),
 		core.List(runs), core.List(o.Idle), core.Pair(attsTerm(o.Back.Atts), statusTerm(o.Back.Status)))
 }
 
@@ -1113,7 +1163,7 @@ func main() {
 		}
 		onlyNotEntered := len(o.Disturbed) > 0
 		for _, d := range o.Disturbed {
-			if !strings.HasPrefix(d, "not-entered:") {
+			if !strings.HasPrefix(d, "not-entered:") && !strings.HasPrefix(d, "late_notice:") {
 				onlyNotEntered = false
 			}
 		}
@@ -1137,6 +1187,7 @@ func main() {
 		}
 		var terms, hashParts []string
 		outcomes := map[string]int{}
+		flavours := map[string]int{}
 		retries := map[string]int{}
 		scriptLen := map[string]int{}
 		callsH := map[string]int{}
@@ -1166,8 +1217,15 @@ func main() {
 			retries[fmt.Sprint(a.Retries)]++
 			scriptLen[fmt.Sprint(len(a.Script))]++
 			r0 := ob.Runs[0]
-			for _, e := range r0.Eff {
+			for k, e := range r0.Eff {
 				outcomes[outcomeName[e]]++
+				if e == OOverrun {
+					if k < len(r0.Prompt) && r0.Prompt[k] {
+						flavours["prompt-answer"]++
+					} else {
+						flavours["after-engine-write"]++
+					}
+				}
 			}
 			callsH[fmt.Sprint(r0.Calls)]++
 			statusH[statusTerm(r0.Last.Status)]++
@@ -1178,7 +1236,7 @@ func main() {
 		c.Coq = core.List(terms)
 		c.Nontrivial = ran > 0
 		c.Hash = core.Hash(hashParts...)
-		c.Dist = map[string]any{"actions": len(acts), "ran": ran, "never_ran": neverRan, "runs": runsTotal, "outcomes": outcomes,
+		c.Dist = map[string]any{"actions": len(acts), "ran": ran, "never_ran": neverRan, "runs": runsTotal, "outcomes": outcomes, "overrun_flavours": flavours,
 			"retries": retries, "script_len": scriptLen, "calls": callsH, "status": statusH, "combos_run": combosRun,
 			"kinds": kinds, "round": rounds[sp.id()], "rerun_causes": causes[sp.id()], "hang": o.Hang, "disturbed": len(o.Disturbed), "wall_ms": o.WallMs}
 		c.Observed = o
